@@ -70,3 +70,7 @@ class LanguageTag(ParsableBase):
             composer.compose_string_array(self.subsequent_subtags, '-')
 
         return composer.composed
+
+    def _asdict(self):
+        # rendered as the tag itself; the state is kept in private attributes the generic rendering does not show
+        return '-'.join([self.primary_subtag] + list(self.subsequent_subtags))
